@@ -155,6 +155,14 @@ def _ul_method(ex, recv, name, args, kwargs):
             ex.setfield(recv, "data", list(d) if isinstance(d, list) else d)
         elif is_sym(init) and init.ty.kind == "seq":
             ex.setfield(recv, "data", init)
+        elif isinstance(init, str) or (is_sym(init) and init.ty.kind == "str"):
+            # UserList("abc") is the list of characters
+            ex.setfield(recv, "data", init if is_sym(init) else list(init))
+        elif is_sym(init) and init.ty.kind == "opt":
+            if ex.branch(init.ty.is_none(init.t), "isnone"):
+                ex.setfield(recv, "data", [])
+            else:
+                return _ul_method(ex, recv, "__init__", [_wrap_field(init.ty.inner, init.ty.val(init.t))], {})
         else:
             it = M.iterable(ex, init)
             if isinstance(it, SymIter):
@@ -169,10 +177,27 @@ def _ul_method(ex, recv, name, args, kwargs):
         else:
             ex.setfield(recv, "data", SV(z3.Concat(d.t, z3.Unit(_elem_term(ex, x, d.ty.inner))), d.ty))
         return None
+    if name == "insert":
+        k, x = args
+        if isinstance(d, list) and not is_sym(k):
+            nd = list(d)
+            nd.insert(k, x)
+            ex.setfield(recv, "data", nd)
+            return None
+        if is_sym(d):
+            n = z3.Length(d.t)
+            kt = term(k, INT)
+            idx = z3.If(kt < 0, z3.If(n + kt < 0, z3.IntVal(0), n + kt), z3.If(kt > n, n, kt))
+            xt = _elem_term(ex, x, d.ty.inner)
+            ex.setfield(recv, "data", SV(z3.Concat(z3.SubSeq(d.t, 0, idx), z3.Unit(xt), z3.SubSeq(d.t, idx, n - idx)), d.ty))
+            return None
+        raise Unsupported("UserList.insert")
     if name == "__len__":
         if isinstance(d, list):
             return len(d)
         return concretize(SV(z3.simplify(z3.Length(d.t)), INT))
+    if name == "__getitem__" and False:
+        pass
     if name == "__getitem__":
         k = args[0]
         if isinstance(k, slice):
@@ -215,6 +240,8 @@ def _ul_method(ex, recv, name, args, kwargs):
 def _elem_term(ex, x, ety):
     if isinstance(x, NTVal):
         return x.term()
+    if isinstance(x, HObj) and hasattr(ety, "lift_obj"):
+        return ety.lift_obj(x)
     return term(x, ety) if not is_sym(x) else coerce(x, ety).t
 
 
